@@ -184,7 +184,17 @@ impl Router {
         }
 
         if request.method.eq("workspace/executeCommand") {
-            let params = ExecuteCommandParams::deserialize(request.params).unwrap();
+            let params = match ExecuteCommandParams::deserialize(request.params) {
+                Ok(params) => params,
+                Err(_) => {
+                    self.respond(Response::new_err(
+                        request.id,
+                        ErrorCode::InternalError as i32,
+                        "error handling request".to_string(),
+                    ));
+                    return false;
+                }
+            };
             let result = self.server.handle_workspace_command(params);
 
             self.send(Message::Request(Request {
@@ -192,6 +202,12 @@ impl Router {
                 method: "workspace/applyEdit".to_string(),
                 params: to_value(result).unwrap(),
             }));
+
+            self.respond(Response {
+                id: request.id,
+                result: Some(serde_json::Value::Null),
+                error: None,
+            });
 
             return false;
         }
